@@ -125,8 +125,8 @@ theorem replicate_getD_empty (n p : Nat) : (List.replicate n Bucket.empty).getD 
   simp only [List.getD_eq_getElem?_getD, List.getElem?_replicate]
   split <;> rfl
 
-theorem rwinv_new (size interval now : Nat) (val : PassEv → Int) (hs : 1 ≤ size) (hi : 1 ≤ interval) :
-    RWInv (RW.new size interval now true) ⟨size, interval, now, 0⟩ val [] 0 where
+theorem rwinv_new (size interval now : Nat) (sc : Rat) (val : PassEv → Int) (hs : 1 ≤ size) (hi : 1 ≤ interval) :
+    RWInv (RW.new size interval now true) ⟨size, interval, now, sc⟩ val [] 0 where
   size_eq := rfl
   iv_eq := rfl
   size_pos := hs
